@@ -214,7 +214,7 @@ pub fn run(env: &Env) -> Rec {
     });
     rec.merge(rs);
     rec.exhaustive(format!("all Single/Range entries and code points over {} special magnitudes (powers of two +-1 up to 2^31, 0xFFFF/0x10000, u32::MAX)", ns));
-    let n_tri = env.n(3_000_000, 100_000_000);
+    let n_tri = env.n(3_000_000, 30_000_000);
     let rt = par(n_tri / 50_000, |i, rec| {
         let mut rng = Rng::stream(env.seed, 0x18_8000 + i as u64);
         let pickv = |rng: &mut Rng| -> u32 {
